@@ -134,6 +134,7 @@ def replay(payload: Dict[str, Any]) -> int:
 
 
 PROP = Prop(
+    technique='explicit TLA+ specification (registry state machine + laws) evaluated by TLC over tables recorded from the implementation (code->spec conformance); parameterisations enumerated by TLC',
     id="C09",
     title="Data type resolution is coherent in every engine",
     slices=[],
